@@ -46,6 +46,10 @@ struct Rng {
 
 static bool g_constructed = false;   // plain: exactly one thread runs at a time under VRT
 static int g_expect = 0;
+// VRT_MEM=view: atomic loads may be stale unless happens-before forbids it, so "after set_value" must mean
+// "happens-after": the setter thread itself after its call returned, and the main thread after joining.
+static bool g_view = false;
+static thread_local bool t_after_hb = false;
 
 struct Val {
   int v;
@@ -224,6 +228,7 @@ struct Runner {
         promise->set_value((int)op.arg);
         vrt_event("ret set");
         set_returned = true;
+        t_after_hb = true;
         break;
       }
       case 'd': {
@@ -243,7 +248,7 @@ struct Runner {
         break;
       }
       case 'w': {
-        bool after = set_returned;
+        bool after = g_view ? t_after_hb : set_returned;
         uint64_t t0 = vrt_now();
         vrt_event("call waitfor %lld", op.arg);
         bool ok = f.wait_for(std::chrono::nanoseconds(op.arg));
@@ -256,7 +261,7 @@ struct Runner {
         break;
       }
       case 'q': {
-        bool after = set_returned;
+        bool after = g_view ? t_after_hb : set_returned;
         vrt_event("call ready");
         bool r = f.ready();
         vrt_event("ret ready %d", (int)r);
@@ -305,6 +310,7 @@ struct Runner {
     }
     for (auto& t : ts) t.join();
     if (latch) set_returned = true;
+    if (set_returned) t_after_hb = true;   // joined the setter(s)
     for (auto& op : specs.back()) run_op(op);
     // end-of-run oracle
     for (size_t id = 0; id < cb_runs.size(); ++id)
@@ -327,6 +333,9 @@ static void run_case(uint64_t seed, bool latch_mode, int latch_n, const std::str
   if (specs.size() < 2) specs.emplace_back();
   g_constructed = false;
   g_expect = 0;
+  t_after_hb = false;
+  const char* mem = getenv("VRT_MEM");
+  g_view = mem && !strcmp(mem, "view");
   vrt_unname_all();
   vrt_trace_clock(1);
   if (!latch_mode) {
@@ -344,7 +353,7 @@ static void run_case(uint64_t seed, bool latch_mode, int latch_n, const std::str
     vrt_begin(seed);
     printf("RUN %lu mode=promise latch=- prog=%s\n", (unsigned long)seed, prog.c_str());
     r.run(specs);
-    vrt_event("stats steps %lu switches %lu", vrt_steps(), vrt_switches());
+    vrt_event("stats steps %lu switches %lu stale %lu", vrt_steps(), vrt_switches(), vrt_stale_reads());
     vrt_end();
     vrt_dump(stdout);
   } else {
@@ -365,7 +374,7 @@ static void run_case(uint64_t seed, bool latch_mode, int latch_n, const std::str
     vrt_begin(seed);
     printf("RUN %lu mode=latch latch=%d prog=%s\n", (unsigned long)seed, latch_n, prog.c_str());
     r.run(specs);
-    vrt_event("stats steps %lu switches %lu", vrt_steps(), vrt_switches());
+    vrt_event("stats steps %lu switches %lu stale %lu", vrt_steps(), vrt_switches(), vrt_stale_reads());
     vrt_end();
     vrt_dump(stdout);
   }
